@@ -66,7 +66,8 @@ Theorem C16_timestamps_names_documented c crit t0 off ops :
 Proof. exact (timestamps_names_documented c crit t0 off ops). Qed.
 
 (* existing_log_files returns exactly the existing family files that the selector asks for: Numbers naming, any cleanup strategy,
-   every history, every selector (custom current infix: not a number infix, and not rCURRENT together with with_r_current) *)
+   every history, every selector whose custom current infix, if any, is not the infix of a rotated file (a number infix); rCURRENT
+   asked for twice - with_r_current and with_custom_current("rCURRENT") - is listed once *)
 Theorem C16_numbers_listing_exact c crit k t0 off ops sel :
   numkcfg c crit k -> not_gz c -> Forall basic_op ops -> custom_ok sel ->
   kside c k (nclosed (a_run None ops (snd (run (fst (step (sys0 t0 off) (OStart c))) ops)))) ->
